@@ -62,6 +62,13 @@ def run_property(ctx, pid, profiles, nprog, nops, scenarios=(), own_props=None, 
     if pid == "C01":
         missing = [c for c in range(1, 8) for g in ("cnot", "cphase") if ("case%d_%s" % (c, g)) not in ctx.coverage]
         ctx.obligation("all 7 placement cases x {cnot, cphase} exercised", not missing, "never hit: %r" % missing)
+    # fail closed when the two client operations on registers, or one of their refusal causes, were never exercised
+    if pid in ("C01", "C02", "C05", "C07"):
+        need = ["op_newreg", "refused_newreg_KQuantum", "op_newinreg", "op_newinregq", "newinreg_ok_at_pos0", "newinreg_ok_at_pos1",
+                "newinreg_register_full", "newinreg_node_full", "newinreg_foreign"]
+        missing = [k for k in need if k not in ctx.coverage]
+        ctx.obligation("client register operations (remote_add_register, remote_new_qubit_inreg) and all their refusal causes exercised",
+                       not missing, "never hit: %r" % missing)
     # ---- correspondence -------------------------------------------------------------------------------------
     bad = R.correspond(ctx, allr, "Model V vs virtual nodes")
     # ---- oracle verdicts --------------------------------------------------------------------------------------
